@@ -596,7 +596,7 @@ Proof.
   intros c w o Hc Hof Hd. destruct c as [b|b|x|s|x|u]; try destruct Hc.
   - (* streaming *)
     destruct o as [d now| | | | |m|]; cbn [step].
-    + cbn [c_add]. pose proof (sc_add_ok s w d now Hc (proj1 Hof) (Hd d now eq_refl)) as H.
+    + cbn [c_add]. pose proof (sc_add_ok s w d now Hc Hof (Hd d now eq_refl)) as H.
       destruct (sc_add deflate s w d now) as [[s' w'] r]. exact H.
     + cbn [c_add_bad].
       destruct (sc_max s <=? sc_count s).
@@ -610,11 +610,11 @@ Proof.
       pose proof (flush_with_fst scoll (fun s => in_info (sc_inner s)) (fun s => in_resolve deflate (sc_inner s)) sc_reset s w) as H.
       unfold sc_flush. destruct (flush_with _ _ sc_reset s w) as [[s1 w1] ok]. cbn [fst coll_ok] in *.
       destruct H as [->| ->]; [exact Hc|apply sc_reset_ok; exact Hc].
-    + cbn [c_set_meta fst coll_ok sc_inner]. apply in_set_meta_ok; [exact Hc|]. destruct m; [exact Hof|exact I].
+    + cbn [c_set_meta fst coll_ok sc_inner]. apply in_set_meta_ok; [exact Hc|]. destruct m; [split; [exact Hof|apply doc_ok_bin_ok; exact Hof]|exact I].
     + destruct (c_info (CStream s)). exact Hc.
   - (* streaming dynamic *)
     destruct o as [d now| | | | |m|]; cbn [step].
-    + cbn [c_add]. pose proof (sd_add_ok x w d now Hc (proj1 Hof) (Hd d now eq_refl)) as H.
+    + cbn [c_add]. pose proof (sd_add_ok x w d now Hc Hof (Hd d now eq_refl)) as H.
       destruct (sd_add deflate x w d now) as [[s' w'] r]. exact H.
     + exact Hc.
     + exact Hc.
@@ -624,7 +624,7 @@ Proof.
                     (fun c => in_resolve deflate (sc_inner (sd_s c))) sd_reset x w) as H.
       unfold sd_flush. destruct (flush_with _ _ sd_reset x w) as [[s1 w1] ok]. cbn [fst coll_ok] in *.
       destruct H as [->| ->]; [exact Hc|apply sc_reset_ok; exact Hc].
-    + cbn [c_set_meta fst coll_ok sd_s sc_inner]. apply in_set_meta_ok; [exact Hc|]. destruct m; [exact Hof|exact I].
+    + cbn [c_set_meta fst coll_ok sd_s sc_inner]. apply in_set_meta_ok; [exact Hc|]. destruct m; [split; [exact Hof|apply doc_ok_bin_ok; exact Hof]|exact I].
     + destruct (c_info (CSDyn x)). exact Hc.
 Qed.
 
@@ -658,7 +658,6 @@ Hypothesis inflate_deflate : forall p, inflate (deflate p) = Some p.
 Variable limit : N.
 
 Definition group_ok (g : list doc) : Prop :=
-  doc_bin_ok (hd [] g) = true /\
   (N.of_nat (length (flatten_doc (hd [] g))) * N.of_nat (length g - 1) <= limit)%N /\
   (N.of_nat (length g - 1) <= limit)%N.
 
@@ -674,7 +673,7 @@ Proof.
     destruct Hg as [Hwf Hsk].
     assert (Hd0 : doc_wf d0) by (inversion Hwf; assumption).
     destruct Hd0 as (Hok & Hlv & Hsm & Hts & Hcnt).
-    destruct Hgo as (Hbin & Hl2 & Hl1). cbn [hd] in Hbin, Hl1, Hl2.
+    destruct Hgo as (Hl2 & Hl1). cbn [hd] in Hl1, Hl2.
     replace (length (d0 :: ds') - 1)%nat with (length ds') in Hl1, Hl2 by (cbn [length]; lia).
     unfold read_chunks. cbn [read_chunks_b read_chunks_gen]. unfold group_chunk at 1 2 4 5. rewrite lookup_type_chunk.
     change (is_num 0 (Some (VInt32 1))) with false. change (is_num 1 (Some (VInt32 1))) with true.
@@ -793,11 +792,11 @@ Proof.
   destruct (reach_ri (fun _ => True) k n fs ops Hk Hn Hok Hfr (fun _ _ => I) Hfs) as (gsw & gsp & _ & _ & _ & Hl & _).
   destruct (log_ok_bytes (snd (c09_reach deflate k n fs ops)) Hl) as [Hb Ho]. fold w in Hb, Ho.
   split; [exact Hb|]. split; [exact Ho|]. intros Hsm. apply Forall_forall. intros d Hd.
-  rewrite Forall_forall in Ho, Hsm. destruct (Ho d Hd) as [H1 H2]. apply frame_ok_enc; [exact H1|apply (Hsm d Hd)|exact H2].
+  rewrite Forall_forall in Ho, Hsm. destruct (Ho d Hd) as [H1 H2]. apply frame_ok_enc; [exact H1|apply (Hsm d Hd)].
 Qed.
 
 Definition qfit (n : Z) (d : doc) : Prop :=
-  doc_bin_ok d = true /\ (N.of_nat (length (flatten_doc d)) * Z.to_N n <= reader_limit)%N.
+  (N.of_nat (length (flatten_doc d)) * Z.to_N n <= reader_limit)%N.
 
 Lemma wstream_group_ok : forall n m ds gs, 0 <= m -> m + 1 <= n -> (Z.to_N n <= reader_limit)%N ->
   wstream deflate m ds gs -> Forall (qfit n) (concat gs) -> Forall (group_ok reader_limit) gs.
@@ -806,18 +805,15 @@ Proof.
   - constructor.
   - apply IH. exact HQ.
   - cbn [concat] in HQ. apply Forall_app in HQ. destruct HQ as [HQg HQr]. constructor; [|apply IH; exact HQr].
-    destruct Hc as (s & d0 & ds' & -> & Hlen & _). inversion HQg as [|x y [Hb Hf] _]; subst.
+    destruct Hc as (s & d0 & ds' & -> & Hlen & _). inversion HQg as [|x y Hf _]; subst. unfold qfit in Hf.
     unfold group_ok. cbn [hd]. replace (length (d0 :: ds') - 1)%nat with (length ds') by (cbn [length]; lia).
     assert (Hle : (N.of_nat (length ds') <= Z.to_N n)%N) by lia.
-    split; [exact Hb|]. split; [|lia].
+    split; [|lia].
     eapply N.le_trans; [|exact Hf]. apply N.mul_le_mono_l. exact Hle.
 Qed.
 
-Lemma ops_fit_q : forall n ops, Forall op_frame_ok ops -> ops_fit n ops -> forall d, ops_added ops d -> qfit n d.
-Proof.
-  intros n ops Hfr [_ Hfit] d Hd. split; [|apply Hfit; exact Hd].
-  destruct Hd as [now Hin]. rewrite Forall_forall in Hfr. apply (Hfr _ Hin).
-Qed.
+Lemma ops_fit_q : forall n ops, ops_fit n ops -> forall d, ops_added ops d -> qfit n d.
+Proof. intros n ops [_ Hfit] d Hd. apply Hfit. exact Hd. Qed.
 
 Lemma streaming_cap : forall k n, streaming k = true -> cap_of k n - 1 = n - 1.
 Proof. intros [] n H; try discriminate H; reflexivity. Qed.
@@ -834,7 +830,7 @@ Theorem c09_prefix : forall k n fs ops, streaming k = true -> 1 <= n < 2 ^ 31 ->
       (cs, negb (at_boundary j (doc_lens (emitted w)))).
 Proof.
   intros k n fs ops Hk Hn Hok Hfr Hfit Hfs w Hsm j Hj.
-  destruct (reach_ri (qfit n) k n fs ops Hk ltac:(lia) Hok Hfr (ops_fit_q n ops Hfr Hfit) Hfs)
+  destruct (reach_ri (qfit n) k n fs ops Hk ltac:(lia) Hok Hfr (ops_fit_q n ops Hfit) Hfs)
     as (gsw & gsp & Hinv & _ & _ & Hl & HQ).
   destruct (c09_log_wellformed k n fs ops Hk ltac:(lia) Hok Hfr Hfs) as (Hb & _ & Hframe). fold w in Hb, Hframe, Hinv, Hl.
   specialize (Hframe Hsm). rewrite Hb in *.
